@@ -52,8 +52,8 @@ RULE = ("bigtable: quick 3 variable-width (2^17, 2^16, 2^15 + a few bins) + 2 fi
         "3), ~200-300 regions each (see bigtable), every 6th region through every access path and form, the others through "
         "Cooler.extent + one bin-frame fetcher; the theorems (L1 = L0) are re-evaluated on every 3rd region, every observation is "
         "judged by L0. rewrite: EVERY ordered pair (first, second) of 8 small tables (fixed 4 / 4 with short last bins / 2 / 3, "
-        "variable x2, longer last bin, one-bin chromosomes), the second written by create_cooler(mode='a') at the root and in one "
-        "nested place and, every other pair each, by merge / coarsen in one place (thorough: all pairs x 3 ways x 3 places), plus 16 "
+        "variable x2, longer last bin, one-bin chromosomes), the second written by create_cooler(mode='a') at the root (every other "
+        "pair also in one nested place) and, every other pair each, by merge / coarsen in one place (thorough: all pairs x 3 ways x 3 places), plus 12 "
         "(120) seeded chains of 3-4 random tables with the way of writing drawn per step; per step every range between two bin "
         "edges, an off-edge variant of each, empty ranges on and next to every edge (a fifth of them on the first, fresh, collection). "
         "tables for the file-based `table` check: quick = EVERY valid segmentation of <=2 chromosomes of length <=5, every "
@@ -801,8 +801,8 @@ REWRITE_POOL = [
 
 def rewrite_cases(rng, thorough):
     """EVERY ordered pair (first table, table written over it) of the pool, the second written by create_cooler(mode='a') at
-    the file root and in one of the two nested places (nested group / nested group beside another root collection), and — every
-    other pair each — by merge_coolers(mode='a') / coarsen_cooler in one place (thorough: every pair, every way, all three
+    the file root (every other pair also in one of the two nested places: nested group / nested group beside another root
+    collection), and — every other pair each — by merge_coolers(mode='a') / coarsen_cooler in one place (thorough: every pair, every way, all three
     places); then seeded chains of 3-4 random tables, the way of writing drawn per step"""
     k = 0
     for i, first in enumerate(REWRITE_POOL):
@@ -811,7 +811,7 @@ def rewrite_cases(rng, thorough):
                 if thorough:
                     wheres = WHERES
                 elif via == "create":
-                    wheres = ("root", WHERES[1 + (i + j) % 2])
+                    wheres = ("root", WHERES[1 + (i + j // 2) % 2]) if (i + j) % 2 else ("root",)
                 elif (i + j) % 2 == (via == "merge"):
                     wheres = (WHERES[(i + j // 2) % 3],)
                 else:
@@ -820,7 +820,7 @@ def rewrite_cases(rng, thorough):
                     yield "rewrite", {"where": where, "stride": 4, "salt": k,
                                       "steps": [{"bins": first}, {"bins": second, "via": via}]}
                     k += 1
-    for _ in range(120 if thorough else 16):
+    for _ in range(120 if thorough else 12):
         steps = []
         for t in range(rng.randint(3, 4)):
             style = rng.choice(["uniform", "variable", "any"])
